@@ -22,6 +22,9 @@ def plan_common(tier, seed, n_random, n_enum, mols_per_case=6, gens_per_mol=4):
         cases.append({"kind": "random", "seed": seed * 1000037 + i, "arch": "hostile_h", "mols": 4, "gens": 2})
     for i in range(n_enum):
         cases.append({"kind": "enum", "seed": seed * 1000033 + i, "arch": ARCHS[i % len(ARCHS)], "limit": 1200 if tier == "quick" else 6000})
+    for i in range(4 if tier == "quick" else 40):
+        # end groups of one object that are the same molecule in another atom order (appended last: the cases above keep their seeds)
+        cases.append({"kind": "random", "seed": seed * 1000039 + i, "arch": "twinends", "mols": 5, "gens": 4})
     return cases
 
 
